@@ -266,14 +266,17 @@ impl VectorZoneMap {
         let self_weight = self.count as f32 / total_count as f32;
         let other_weight = other.count as f32 / total_count as f32;
 
+        let old_centroid = self.centroid.clone();
         for i in 0..self.dimensions.min(other.dimensions) {
             self.centroid[i] = self.centroid[i] * self_weight + other.centroid[i] * other_weight;
         }
 
         // Max radius becomes approximate (conservative)
-        // The true max radius would require recomputing from all vectors
-        self.max_radius = f32::midpoint(self.max_radius, other.max_radius)
-            + euclidean_distance(&self.centroid, &other.centroid);
+        // The true max radius would require recomputing from all vectors.
+        // A member of either block is at most its block's radius plus the distance its
+        // centroid moved away from the merged centroid.
+        self.max_radius = (self.max_radius + euclidean_distance(&old_centroid, &self.centroid))
+            .max(other.max_radius + euclidean_distance(&other.centroid, &self.centroid));
 
         self.count = total_count;
     }
